@@ -53,7 +53,7 @@ def main():
                     for l in out.strip().splitlines()[-8:]:
                         print("      " + l[:400])
     finally:
-        sh("git -C /repo checkout -- .")
+        sh("git -C /repo checkout -- . && git -C /repo clean -fdq")
         rc, out = sh("git -C /repo status --porcelain")
         assert out.strip() == "", "/repo not clean after undo: " + out
         sh("git checkout -- evidence", cwd="/verif")
